@@ -102,6 +102,8 @@ var kinds = []kindT{
 	{"ifacestruct", func() interface{} { return myIfaceStruct{V: []int{1, 2}} }},
 	// undecoded JSON kept as bytes: a typed byte slice like any other, whatever the bytes spell
 	{"rawjson", func() interface{} { return json.RawMessage(`{"a":{"b":1},"b":[1,2],"id":7}`) }},
+	// … and bytes that are NOT well-formed JSON
+	{"badraw", func() interface{} { return json.RawMessage(`{"a":`) }},
 	{"mapslice", func() interface{} { return theMapSlice }},
 	{"strslice", func() interface{} { return theStrSlice }},
 	{"ptriface", func() interface{} { return ptrIface }},
